@@ -1207,7 +1207,26 @@ def const_str_of(body, pv, op):
     v = str_const(op)
     if v is not None:
         return v
+
+    def named(defid):
+        """value of a named `const X: &str = "..."` item"""
+        cb = pv.prog.bodies.get(defid)
+        if cb is None:
+            return None
+        for _, st in cb.stmts():
+            if st.k == "assign" and st.place.is_local() and st.place.local == 0 and st.rv["k"] == "use":
+                return str_const(st.rv["op"])
+        return None
+    if op.kind == "const" and op.const.get("def"):
+        v = named(op.const["def"])
+        if v is not None:
+            return v
     atoms = pv.of_operand(body, op)
+    cds = [a for a in atoms if a[0] == "constdef"]
+    if len(cds) == 1 and not [a for a in atoms if a[0] in ("param", "call", "field", "upvar", "source") or (a[0] == "const" and not str(a[2]).endswith(cds[0][1].rsplit("::", 1)[-1]))]:
+        v = named(cds[0][1])
+        if v is not None:
+            return v
     strs = [a for a in atoms if a[0] == "const" and a[1].replace("'static ", "") == "&str"]
     others = [a for a in atoms if a[0] in ("param", "call", "field", "upvar", "source")]
     if len(strs) == 1 and not others:
